@@ -60,6 +60,10 @@ type c13Req struct {
 	Prefix core.Path // otherwise: the prefix (may be empty); every op path starts with it
 	Notif  bool      // sent as a Notification through UnmarshalNotifications (no replaces)
 	Atomic bool      // Notification.Atomic
+	// Unknown: absolute paths of struct nodes; for each the request carries (first) an update of the
+	// leaf "zz-unknown" below it, which the schema does not have. Such a request is executed with
+	// ytypes.IgnoreExtraFields and the reference ignores these updates: the tree must not change.
+	Unknown []core.Path
 }
 
 // c13Seq is a history of requests applied to one tree.
@@ -80,6 +84,15 @@ func (rq *c13Req) setRequest() *gpb.SetRequest {
 	sr := &gpb.SetRequest{}
 	if !rq.PfxNil {
 		sr.Prefix = rq.Prefix.GNMI()
+	}
+	for _, u := range rq.Unknown {
+		n := 0
+		if !rq.PfxNil {
+			n = len(rq.Prefix)
+		}
+		g := u[n:].GNMI()
+		g.Elem = append(g.Elem, &gpb.PathElem{Name: "zz-unknown"})
+		sr.Update = append(sr.Update, &gpb.Update{Path: g, Val: &gpb.TypedValue{Value: &gpb.TypedValue_StringVal{StringVal: "x"}}})
 	}
 	for _, op := range rq.Ops {
 		switch op.Kind {
@@ -969,15 +982,27 @@ func (sp *c13Space) checkFrom(atoms []*core.Atom, start *core.Model, seq *c13Seq
 		for _, rq := range seq.Reqs {
 			ns = append(ns, rq.notification())
 		}
-		if r := judge(seq.Reqs, func() error { return ytypes.UnmarshalNotifications(sch, ns) }); r != nil {
+		var opts []ytypes.UnmarshalOpt
+		for _, rq := range seq.Reqs {
+			if len(rq.Unknown) > 0 {
+				opts = []ytypes.UnmarshalOpt{&ytypes.IgnoreExtraFields{}}
+			}
+		}
+		if r := judge(seq.Reqs, func() error { return ytypes.UnmarshalNotifications(sch, ns, opts...) }); r != nil {
 			return *r
 		}
 	} else {
 		for i, rq := range seq.Reqs {
 			rq := rq
-			run := func() error { return ytypes.UnmarshalSetRequest(sch, rq.setRequest()) }
+			var opts []ytypes.UnmarshalOpt
+			if len(rq.Unknown) > 0 {
+				opts = []ytypes.UnmarshalOpt{&ytypes.IgnoreExtraFields{}}
+			}
+			run := func() error { return ytypes.UnmarshalSetRequest(sch, rq.setRequest(), opts...) }
 			if rq.Notif {
-				run = func() error { return ytypes.UnmarshalNotifications(sch, []*gpb.Notification{rq.notification()}) }
+				run = func() error {
+					return ytypes.UnmarshalNotifications(sch, []*gpb.Notification{rq.notification()}, opts...)
+				}
 			}
 			if r := judge([]*c13Req{rq}, run); r != nil {
 				if r.clause != "" && len(seq.Reqs) > 1 {
@@ -1127,6 +1152,9 @@ func (sp *c13Space) seqShape(seq *c13Seq) string {
 		if rq.Atomic {
 			s += " atomic"
 		}
+		for _, u := range rq.Unknown {
+			s += " U(unknown-leaf-below)" + pathShapeP(sp.p, u) + "+IgnoreExtraFields"
+		}
 		for _, op := range rq.Ops {
 			s += " " + sp.opShape(op)
 		}
@@ -1147,11 +1175,12 @@ type c13OpCase struct {
 	Enc   string    `json:"enc,omitempty"`
 }
 type c13ReqCase struct {
-	Ops    []c13OpCase `json:"ops"`
-	PfxNil bool        `json:"prefix_nil,omitempty"`
-	Prefix core.Path   `json:"prefix,omitempty"`
-	Notif  bool        `json:"notification,omitempty"`
-	Atomic bool        `json:"atomic,omitempty"`
+	Ops     []c13OpCase `json:"ops"`
+	PfxNil  bool        `json:"prefix_nil,omitempty"`
+	Prefix  core.Path   `json:"prefix,omitempty"`
+	Notif   bool        `json:"notification,omitempty"`
+	Atomic  bool        `json:"atomic,omitempty"`
+	Unknown []core.Path `json:"unknown_leaf_below,omitempty"`
 }
 type c13Case struct {
 	Pkg     string       `json:"pkg"`
@@ -1164,7 +1193,7 @@ type c13Case struct {
 func (sp *c13Space) caseOf(atoms []*core.Atom, seq *c13Seq) c13Case {
 	cs := c13Case{Pkg: sp.p.Name, Atoms: atomNames(atoms), OneCall: seq.OneCall}
 	for _, rq := range seq.Reqs {
-		rc := c13ReqCase{PfxNil: rq.PfxNil, Prefix: rq.Prefix, Notif: rq.Notif, Atomic: rq.Atomic}
+		rc := c13ReqCase{PfxNil: rq.PfxNil, Prefix: rq.Prefix, Notif: rq.Notif, Atomic: rq.Atomic, Unknown: rq.Unknown}
 		for _, op := range rq.Ops {
 			rc.Ops = append(rc.Ops, c13OpCase{Kind: string(op.Kind), Path: op.Path, TK: op.TK, Atoms: atomNames(op.Atoms), Enc: op.Enc})
 		}
@@ -1181,7 +1210,7 @@ func (sp *c13Space) caseOf(atoms []*core.Atom, seq *c13Seq) c13Case {
 func (sp *c13Space) seqOf(cs c13Case) (*c13Seq, bool) {
 	seq := &c13Seq{OneCall: cs.OneCall}
 	for _, rc := range cs.Reqs {
-		rq := &c13Req{PfxNil: rc.PfxNil, Prefix: rc.Prefix, Notif: rc.Notif, Atomic: rc.Atomic}
+		rq := &c13Req{PfxNil: rc.PfxNil, Prefix: rc.Prefix, Notif: rc.Notif, Atomic: rc.Atomic, Unknown: rc.Unknown}
 		for _, oc := range rc.Ops {
 			as, ok := sp.p.AtomsByName(oc.Atoms)
 			if !ok || len(oc.Kind) != 1 {
@@ -1709,6 +1738,49 @@ func c13RunPkg(c *core.Ctx, p *core.Pkg) {
 			for _, op := range sp.a2 {
 				if !done[op.id] {
 					run.eval(t, st, one(op))
+				}
+			}
+		}
+	})
+
+	// A': IgnoreExtraFields. From every state, for every struct node on the way to the state's data (the
+	// root, containers, list entries; present ones) and for one absent list entry, a request that updates
+	// a leaf the schema does not have below that (existing) node, alone and together with each update of the small alphabet;
+	// also with the node's path as prefix and as a Notification. The unknown update must be ignored.
+	phase("ignore_extra_fields", len(states), func(t *c13Tally, i int) {
+		st := states[i]
+		seen := map[string]bool{}
+		var nodes []core.Path
+		add := func(q core.Path) {
+			if k := q.String(); !seen[k] {
+				seen[k] = true
+				nodes = append(nodes, q)
+			}
+		}
+		add(core.Path{})
+		for _, a := range st.atoms {
+			n := len(a.Path)
+			if a.Kind == "unkeyed" {
+				continue // entries of a list without keys cannot be addressed
+			}
+			if a.Kind == "leaf" || a.Kind == "leaflist" || a.Kind == "emptylist" {
+				n-- // the last element is not a struct node (a leaf, or a list without keys)
+			}
+			for l := 1; l <= n; l++ {
+				add(a.Path[:l])
+			}
+		}
+		for _, q := range nodes {
+			run.eval(t, st, &c13Seq{Reqs: []*c13Req{{PfxNil: true, Unknown: []core.Path{q}}}})
+			run.eval(t, st, &c13Seq{Reqs: []*c13Req{{Prefix: q, Unknown: []core.Path{q}}}})
+			run.eval(t, st, &c13Seq{Reqs: []*c13Req{{PfxNil: true, Notif: true, Unknown: []core.Path{q}}}})
+			if isFocus(st) {
+				for _, op := range sp.a3 {
+					// updates only: a replace above the node would remove it first, and whether the ignored
+					// update may then re-create the (empty) node on its way is not what is judged here
+					if op.Kind == 'U' && !c13WildTK(op.TK) {
+						run.eval(t, st, &c13Seq{Reqs: []*c13Req{{PfxNil: true, Unknown: []core.Path{q}, Ops: []*c13Op{op}}}})
+					}
 				}
 			}
 		}
